@@ -16,6 +16,9 @@ func init() {
 	parts["kernel-files"] = func(seed uint64, tier string, replay []string) *lib.Result {
 		return corrKernel(seed, tier, replay, "C02", fsGenOpts{files: true, kernel: true}, 12)
 	}
+	parts["kernel-enum"] = func(seed uint64, tier string, replay []string) *lib.Result {
+		return corrKernel(seed, tier, replay, "C14", fsGenOpts{enum: true, symlinks: true, kernel: true}, 14)
+	}
 	parts["kernel-links"] = func(seed uint64, tier string, replay []string) *lib.Result {
 		return corrKernel(seed, tier, replay, "C04", fsGenOpts{symlinks: true, kernel: true}, 13)
 	}
